@@ -66,6 +66,21 @@ fn check_cf<L: Language + 'static, CF: CostFunction<L, Cost = u64>>(
             }
         }
     }
+    // the convenience entry points (a new extractor per call): same cost, same membership, for the first two handles
+    if name == "AstSize" {
+        for h in handles.iter().take(2) {
+            let t = ast_size_extract(h, eg);
+            let f = eg.find_applied_id(h);
+            obs.cmp(2);
+            if AstSize.cost_rec(&t) != reference_costs(eg, &AstSize)[&f.id] {
+                return Err(format!("ast_size_extract({:?}) = {} costs {}, the reference minimum is {}", h, t, AstSize.cost_rec(&t), reference_costs(eg, &AstSize)[&f.id]));
+            }
+            match lookup_rec_expr(&t, eg) {
+                Some(j) if eg.eq(&j, h) => {}
+                other => return Err(format!("ast_size_extract({:?}) = {} looks up to {:?}", h, t, other)),
+            }
+        }
+    }
     // classification
     for i in eg.ids() {
         let ns = eg.enodes(i);
